@@ -19,7 +19,8 @@ import common as C
 MODE_NO = 48            # modes of the randomization method in histories (cost only; any value works)
 NC, NK, NP = 19, 3, 8   # trace row layout: result block, (cnames, knames, haspos), cur_desc + seed
 OPN = ["Call", "SetPos", "SetCond:NewVals", "SetCond:NewPos", "SetCond:Refresh", "ModelInplace", "SetModel",
-       "SetMean", "SetTrend", "SetNorm", "SetGen"]
+       "SetMean", "SetTrend", "SetNorm", "SetGen", "MutatePosInPlace", "DirectKrigeCall", "AssignPos"]
+NCOL = 7                # row = [code, haspos, base, jit, mesh, seed+1, nosave]
 FIELD_CODES_C = {0: "field", 1: "raw_field", 2: "raw_krige"}
 FIELD_CODES_K = {0: "field", 1: "krige_var"}
 
@@ -76,8 +77,38 @@ class World:
         self.cur_mtn = dict(mean=None if self.unbiased and r.random() < 0.5 else float(r.normal()), trend=None, normalizer=None)
 
     def pos(self, base, jit, mesh):
-        ax = [a + jit * 2e-6 for a in self.bases[base]]
+        # bases 4..7 = bases 0..3 shifted by 0.37: same shape (reachable by editing a passed array in place), clearly different
+        ax = [a + jit * 2e-6 + (0.37 if base >= 4 else 0.0) for a in self.bases[base % 4]]
         return tuple(ax)   # same tuple of axes for both mesh types (unstructured: points (x_i, y_i, z_i))
+
+    def user_pos(self, base, jit, mesh):
+        """the object the CALLER passes: float64 ndarrays, which the implementation could alias.  The same object is passed
+        again while its content is the requested position (so an in-place edit followed by csrf(pos) re-passes the edited array)"""
+        u = getattr(self, "user", None)
+        if u is not None and u["content"] == (base, jit) and u["mesh"] == mesh:
+            return u["obj"]
+        ax = self.pos(base, jit, mesh)
+        if not mesh:
+            obj = np.array(ax, dtype=np.double)                 # (dim, n) array
+        elif self.dim == 1:
+            obj = np.array(ax[0], dtype=np.double)              # a single axis
+        else:
+            obj = tuple(np.array(a, dtype=np.double) for a in ax)
+        self.user = dict(obj=obj, content=(base, jit), mesh=mesh)
+        return obj
+
+    def mutate_user(self, base):
+        """the caller edits the array passed last IN PLACE so that it holds position `base` (same shape)"""
+        u = self.user
+        ax = self.pos(base, 0, u["mesh"])
+        if isinstance(u["obj"], tuple):
+            for o, a in zip(u["obj"], ax):
+                o[...] = a
+        elif u["obj"].ndim == 2:
+            u["obj"][...] = np.array(ax)
+        else:
+            u["obj"][...] = ax[0]
+        u["content"] = (base, 0)
 
     def new_cond(self, new_pos, old=None):
         r = self.rng
@@ -145,13 +176,37 @@ def mtn_repr(m):
 
 
 def gen_rows(rng, nops, allow_jit):
-    """random history as rows [code, haspos, base, jit, mesh, seed+1]; mostly valid, some calls before any position"""
+    """random history as rows [code, haspos, base, jit, mesh, seed+1, nosave]; mostly valid, some calls before any position"""
     rows = []
-    cur = None        # (base, jit, mesh) last passed
+    cur = None        # (base, jit, mesh) last passed = content of the caller's array
     i = 0
     while len(rows) < nops:
         u = rng.random()
-        row = [0, 0, 0, 0, 0, 0]
+        row = [0, 0, 0, 0, 0, 0, 0]
+        if cur is not None and u < 0.13:
+            v = rng.random()
+            if v < 0.4:
+                # the caller edits the passed array in place ... and (mostly) passes it again
+                b = (cur[0] + 4) % 8
+                rows.append([11, 1, b, 0, cur[2], 0, 0])
+                cur = (b, 0, cur[2])
+                if rng.random() < 0.7:
+                    rows.append([0, 1, b, 0, cur[2], 0, 0])
+            elif v < 0.75:
+                row = [12, 0, 0, 0, 0, 0, 0]
+                if rng.random() < 0.75:
+                    b, m = int(rng.integers(4)), int(rng.random() < 0.3)
+                    if rng.random() < 0.3:
+                        b, m = cur[0], cur[2]
+                    row[1:5] = [1, b, 0, m]
+                    cur = (b, 0, m)
+                rows.append(row)
+            else:
+                b = int(rng.integers(4))
+                rows.append([13, 1, b, 0, cur[2], 0, 0])
+                cur = (b, 0, cur[2])
+            continue
+        u = rng.random()
         if u < 0.40 or (len(rows) == 0 and u < 0.8):
             row[0] = 0
             if cur is None and rng.random() < 0.12:
@@ -169,13 +224,15 @@ def gen_rows(rng, nops, allow_jit):
                 cur = (b, j, m)
             if rng.random() < 0.5:
                 row[5] = 1 + int(rng.integers(1, 2000))
+            if rng.random() < 0.12:
+                row[6] = 1                                   # store=[True, True, False]
         elif u < 0.47:
             b, j, m = int(rng.integers(4)), 0, int(rng.random() < 0.3)
             if cur is not None and rng.random() < 0.3:
                 b, j, m = cur
                 if allow_jit:
                     j = int(rng.integers(0, 4))
-            row = [1, 1, b, j, m, 0]
+            row = [1, 1, b, j, m, 0, 0]
             cur = (b, j, m)
         elif u < 0.56:
             row[0] = 2
@@ -187,7 +244,7 @@ def gen_rows(rng, nops, allow_jit):
             row[0] = 5
             rows.append(row)
             if rng.random() < 0.7:
-                rows.append([4, 0, 0, 0, 0, 0])              # the documented refresh
+                rows.append([4, 0, 0, 0, 0, 0, 0])              # the documented refresh
             continue
         elif u < 0.81:
             row[0] = 6
@@ -214,7 +271,7 @@ class HistoryRunner:
         import gstools as gs
         ctx = self.ctx
         w = World(wseed)
-        rows = [list(map(int, r)) for r in rows]
+        rows = [(list(map(int, r)) + [0] * NCOL)[:NCOL] for r in rows]
         # make the history end with an up-to-date call (the property's "next field")
         dirty = False
         haspos = False
@@ -223,16 +280,16 @@ class HistoryRunner:
                 dirty = True
             if r[0] in (2, 3, 4, 6):
                 dirty = False
-            if r[0] in (0, 1) and r[1]:
+            if r[0] in (0, 1, 12, 13) and r[1]:
                 haspos = True
         if dirty:
-            rows.append([4, 0, 0, 0, 0, 0])
-        rows.append([0, 0, 0, 0, 0, 0] if haspos else [0, 1, 0, 0, 0, 0])
+            rows.append([4, 0, 0, 0, 0, 0, 0])
+        rows.append([0, 0, 0, 0, 0, 0, 0] if haspos else [0, 1, 0, 0, 0, 0, 0])
         case = dict(history=dict(wseed=int(wseed), rows=rows), dim=w.dim, unbiased=w.unbiased, drift=w.drift,
                     ops=[OPN[r[0]] for r in rows], origin=origin)
         trace = None
         if self.drv is not None:
-            trace = self.drv.call("trace", True, ("n", w.seed0), np.array(rows, dtype=np.int64))
+            trace = self.drv.call("trace", True, True, True, ("n", w.seed0), np.array(rows, dtype=np.int64))
             if isinstance(trace, tuple) and trace and trace[0] == "error":
                 self.tie_broken.append("model trace failed: %r" % (trace,))
                 trace = None
@@ -269,16 +326,20 @@ class HistoryRunner:
                         if cur_pos is not None and cur_pos[0] == r[2] and cur_pos[2] == r[4] and cur_pos[1] != r[3]:
                             jittered = True
                         cur_pos = (r[2], r[3], r[4])
-                        out = csrf(w.pos(r[2], r[3], r[4]), seed=sd, mesh_type=mesh_name(r[4]))
+                        kw = dict(store=[True, True, False]) if r[6] else {}
+                        out = csrf(w.user_pos(r[2], r[3], r[4]), seed=sd, mesh_type=mesh_name(r[4]), **kw)
                     else:
-                        out = csrf(seed=sd)
+                        kw = dict(store=[True, True, False]) if r[6] else {}
+                        out = csrf(seed=sd, **kw)
+                    if r[6]:
+                        last_change = "Call:store-raw_krige=False"
                     out = np.array(out, copy=True)
                     reuse = calls[0] == 0
                 elif code == 1:
                     if cur_pos is not None and cur_pos[0] == r[2] and cur_pos[2] == r[4] and cur_pos[1] != r[3]:
                         jittered = True
                     cur_pos = (r[2], r[3], r[4])
-                    csrf.set_pos(w.pos(r[2], r[3], r[4]), mesh_name(r[4]))
+                    csrf.set_pos(w.user_pos(r[2], r[3], r[4]), mesh_name(r[4]))
                 elif code == 2:
                     w.cur_cond = w.new_cond(False, w.cur_cond)
                     csrf.krige.set_condition([a.copy() for a in w.cur_cond[0]], w.cur_cond[1].copy())
@@ -314,8 +375,30 @@ class HistoryRunner:
                 elif code == 10:
                     cur_seed = r[5] - 1
                     csrf.set_generator("RandMeth", seed=cur_seed, mode_no=MODE_NO)
+                elif code == 11:
+                    # the stored positions must not follow the caller's edit (cur_pos unchanged)
+                    w.mutate_user(r[2])
+                    last_change = OPN[code]
+                elif code == 12:
+                    last_change = OPN[code]
+                    if r[1]:
+                        if cur_pos is not None and cur_pos[0] == r[2] and cur_pos[2] == r[4] and cur_pos[1] != r[3]:
+                            jittered = True
+                        new_pos = (r[2], r[3], r[4])
+                        arg = w.user_pos(r[2], r[3], r[4])
+                        cur_pos = new_pos
+                        csrf.krige(arg, mesh_type=mesh_name(r[4]))
+                    else:
+                        csrf.krige()
+                elif code == 13:
+                    last_change = OPN[code]
+                    m = cur_pos[2] if cur_pos is not None else 0
+                    if cur_pos is not None and cur_pos[0] == r[2] and cur_pos[1] != r[3]:
+                        jittered = True
+                    csrf.pos = w.user_pos(r[2], r[3], m)
+                    cur_pos = (r[2], r[3], m)
             except ValueError as e:
-                if code == 0 and cur_pos is None and "no position tuple" in str(e):
+                if code in (0, 12) and cur_pos is None and "no position tuple" in str(e):
                     kind = 1
                 else:
                     ctx.violation("probe: history", "unexpected %s in op %d (%s): %s" % (type(e).__name__, i, OPN[code], e),
@@ -373,7 +456,9 @@ class HistoryRunner:
                 fresh, fstored = w.fresh_field(model_now, w.cur_cond, w.cur_mtn, cur_seed, w.pos(b, j, m), mesh_name(m))
                 sc = max(1.0, float(np.max(np.abs(fresh))))
                 ctx.count(None)
-                stored = dict(raw_krige=csrf.raw_krige, raw_field=csrf.raw_field, krige_var=csrf.krige.krige_var, krige_field=csrf.krige.field)
+                stored = dict(raw_field=csrf.raw_field, krige_var=csrf.krige.krige_var, krige_field=csrf.krige.field)
+                if not r[6]:        # a call with store=[True, True, False] does not touch a previously stored raw_krige
+                    stored["raw_krige"] = csrf.raw_krige
                 bad_stored = [n for n in stored if np.shape(stored[n]) != np.shape(fstored[n]) or
                               not np.all(np.abs(np.asarray(stored[n]) - fstored[n]) <= 1e-12 * max(1.0, float(np.max(np.abs(fstored[n])))))]
                 if fresh.shape != out.shape or not np.all(np.abs(fresh - out) <= 1e-12 * sc) or bad_stored:
@@ -685,12 +770,14 @@ def run(ctx, only_history=None):
     rng = C.Rng(ctx.seed, "C07")
     thorough = ctx.tier == "thorough"
     merge_local_known_findings(ctx)
-    ctx.rule = ("operation histories of <= 10 operations (+ closing refresh/call) over {call(pos?, seed?), set_pos, set_condition(new values / new "
-                "positions / refresh), in-place model change, model / mean / trend / normalizer re-assignment, set_generator}, dim 1-3, simple/"
-                "ordinary/universal kriging, scalar and callable trend, YeoJohnson/Modulus normalizers, structured and unstructured meshes, "
-                "identical / clearly different / sub-tolerance positions; honour-the-data: 5 kriging variants x 5 models x dim 1-3 x nugget "
-                "(exact) x mesh x seeds. non-trivial = history with >= 2 successful calls and >= 1 state-changing operation between calls, or a "
-                "probe case; distinct = distinct operation-code sequence (histories) or distinct (probe, variant, dim, model, options)")
+    ctx.rule = ("operation histories of <= 10 operations (+ closing refresh/call) over {call(pos?, seed?, store raw_krige?), set_pos, "
+                "set_condition(new values / new positions / refresh), in-place model change, model / mean / trend / normalizer re-assignment, "
+                "set_generator, in-place edit of the caller's position array, direct krige(pos?) call, csrf.pos = ...}, positions passed as "
+                "float64 ndarrays (aliasing-prone), dim 1-3, simple/ordinary/universal kriging, scalar and callable trend, YeoJohnson/Modulus "
+                "normalizers, structured and unstructured meshes, identical / clearly different (incl. 3e-4 apart) / sub-tolerance positions; "
+                "honour-the-data: 5 kriging variants x 5 models x dim 1-3 x nugget (exact) x mesh x seeds, lat-lon / temporal models. non-trivial "
+                "= history with >= 1 call and >= 1 state-changing operation, or a probe case; distinct = distinct operation-code sequence "
+                "(histories) or distinct (probe, variant, dim, model, options)")
     ctx.trusted = [
         "Coq 8.16.1 kernel; stdlib Reals axioms as printed per theorem (state-machine theorems are closed under the global context)",
         "ExtrOcamlBasic extraction; OCaml float instance (+ - * / sqrt only are used by the C07 formula)",
@@ -703,8 +790,9 @@ def run(ctx, only_history=None):
         "far-field limit as a limit statement: proved are the exact end point (estimate 0, variance = sill) and a quantitative bound for models "
         "without nugget; that simple-kriging weights vanish far from the data is probed only",
         "np.allclose window of Field._pos_equal: C07_cache_coherent assumes positions are identical or not allclose (C07_pos_window_refuted; known finding)",
-        "per-call store/krige_store options, custom field names, direct calls of csrf.krige(...) or assignments csrf.pos = ... between CondSRF calls, fit_normalizer/"
-        "fit_variogram and seed=None are outside the modelled operation alphabet",
+        "custom field names, krige_store options, assigning csrf.mesh_type (raises ValueError on the next call unless the shapes happen to "
+        "agree), in-place edits of arrays obtained from the getters (csrf.pos[...] = ...), fit_normalizer/fit_variogram and seed=None are "
+        "outside the modelled operation alphabet",
         "floating-point rounding (theorems over R; the formula model is executed at doubles bit-for-bit against the implementation)",
     ]
     ctx.tie["CondSRF.__call__ / set_pos / setters, Krige.set_condition (cache state machine)"] = "hand model + correspondence"
